@@ -3,6 +3,7 @@ package c12
 import (
 	"context"
 	"fmt"
+	"io"
 	"net"
 	"sort"
 	"strings"
@@ -232,7 +233,10 @@ var (
 	relay2ID = keys.Ed(98).ID
 )
 
-const dcutrProto = protocol.ID("/libp2p/dcutr")
+const (
+	dcutrProto = protocol.ID("/libp2p/dcutr")
+	testProto  = protocol.ID("/test/1")
+)
 
 func (w *world) wrap(sc *scripted.Conn, inbound bool) *conn {
 	cls := clsD
@@ -258,8 +262,14 @@ func (w *world) wrap(sc *scripted.Conn, inbound bool) *conn {
 func (w *world) answer(c *conn, remote *memnet.Conn) {
 	mux := msmux.NewMultistreamMuxer[protocol.ID]()
 	mux.AddHandler(dcutrProto, nil)
+	mux.AddHandler(testProto, nil)
 	proto, _, err := mux.Negotiate(remote)
 	if err != nil {
+		remote.Reset()
+		return
+	}
+	if proto == testProto {
+		io.Copy(io.Discard, remote)
 		remote.Reset()
 		return
 	}
